@@ -1018,7 +1018,7 @@ void build_eof_action(void)
 			sceof[scon_stk[i]] = true;
 
 			if (previous_continued_action /* && previous action was regular */)
-				add_action("YY_RULE_SETUP\n");
+				add_action("M4_HOOK_SET_RULE_SETUP\n");
 
 			snprintf( action_text, sizeof(action_text), "M4_HOOK_EOF_STATE_CASE_ARM(%s)\n",
 				scname[scon_stk[i]] );
